@@ -66,6 +66,9 @@ SCHEMES = {
     "serial": lambda T: [0.0] + [float(i) for i in range(1, T)],
     "ties": lambda T: [0.0, 0.0] + [1.5] * (T - 2),
     "serial2": lambda T: [0.5 * i * i for i in range(T)],
+    # heights need not start at 0 (log_prob takes arbitrary node heights)
+    "shifted": lambda T: [1.5] * T,
+    "shifted_serial": lambda T: [0.5 + 0.75 * i for i in range(T)],
 }
 
 
@@ -224,6 +227,8 @@ def obligations(tier, seed):
     for T in Ts:
         for scheme in SCHEMES:
             if T == 2 and scheme in ("ties",):
+                continue
+            if scheme.startswith("shifted") and T >= 4:
                 continue
             heavy = T >= 4
             for model in ("constant", "exponential", "skyride"):
